@@ -234,12 +234,13 @@ class PageRenderer:
                         pass
 
             # Remove columns if necessary (page_by/subline_by)
-            # Note: page.data already has columns removed if populated from it.
-            # Filter only if text is from original document with extra columns.
-            # Since we simplified text to be a list, we can't easily filter by name
-            # unless we assume order or have metadata.
-            # For now, we assume header text matches the current page columns.
-            pass
+            # Header text already matches the displayed columns. Widths given
+            # (or inherited from the body) per original column are sliced the
+            # same way as the body's, so that header cells line up with the
+            # data columns they label.
+            header_copy.col_rel_width = self._displayed_col_rel_width(
+                header_copy, document, page
+            )
 
             # Apply top border for first page/first header
             if (
@@ -265,6 +266,30 @@ class PageRenderer:
                 header_elements.extend(header_rtf)
 
         return header_elements
+
+    @staticmethod
+    def _displayed_col_rel_width(header: Any, document: Any, page: PageContext):
+        """Header widths with the entries of removed body columns dropped."""
+        widths = header.col_rel_width
+        text = header.text
+        if (
+            widths is None
+            or text is None
+            or not isinstance(document.df, pl.DataFrame)
+            or not isinstance(page.data, pl.DataFrame)
+        ):
+            return widths
+
+        original = document.df.columns
+        displayed = set(page.data.columns)
+        n_cells = text.shape[1] if isinstance(text, pl.DataFrame) else len(text)
+        if (
+            len(displayed) < len(original)
+            and len(widths) == len(original)
+            and n_cells == len(displayed)
+        ):
+            return [w for col, w in zip(original, widths) if col in displayed]
+        return widths
 
     def _render_body(self, document: Any, page: PageContext) -> list[str]:
         page_attrs = page.final_body_attrs or page.table_attrs or document.rtf_body
